@@ -110,29 +110,49 @@ def r3(ctx):
     sids, tids, obs = f.params
     env = single_defs(f.node)
     N = Norm(strict=False)
-    mask = "single_treatment_mask"
-    tr = env.get("single_treatment_treatments")
-    ok = tr is not None and N.key(tr) in (N.key(parse_expr(f"np.sort({tids}[{mask}, :], axis=1)[:, -1]")), N.key(parse_expr(f"np.max({tids}[{mask}, :], axis=1)")),
-                                         N.key(parse_expr(f"{tids}[{mask}, :].max(axis=1)")))
-    ctx.check("R3", f"{f.site()}::treatment-is-row-maximum", ok, "the single agent of a row is its maximum id (the sentinel -1 is the minimum)",
-              f"the single agent of a single-agent row is `{U(tr) if tr is not None else None}`, not the row maximum")
+    # roles: the locals holding the single-agent rows' observations / sample ids / agent id (whatever they are called)
+    roles = {}
+    masks = set()
+    for k, v in env.items():
+        if isinstance(v, ast.Subscript) and U(v.value) == obs and not isinstance(v.slice, (ast.Tuple, ast.Slice, ast.Constant)):
+            roles["obs"] = k
+            masks.add(U(v.slice))
+        if isinstance(v, ast.Subscript) and U(v.value) == sids and not isinstance(v.slice, (ast.Tuple, ast.Slice, ast.Constant)):
+            roles["sid"] = k
+            masks.add(U(v.slice))
+    ctx.need("obs" in roles and "sid" in roles and len(masks) == 1, f"{f.site()}: the single-agent rows of `{obs}` / `{sids}` under one common selection were not found")
+    mask = next(iter(masks))
+    tr_name, tr = None, None
+    for k, v in env.items():
+        if N.key(v) in (N.key(parse_expr(f"np.sort({tids}[{mask}, :], axis=1)[:, -1]")), N.key(parse_expr(f"np.max({tids}[{mask}, :], axis=1)")),
+                        N.key(parse_expr(f"{tids}[{mask}, :].max(axis=1)")), N.key(parse_expr(f"{tids}[{mask}].max(axis=1)")), N.key(parse_expr(f"np.max({tids}[{mask}], axis=1)"))):
+            tr_name, tr = k, v
+    bad_tr = [k for k, v in env.items() if tr_name is None and isinstance(v, (ast.Subscript, ast.Call)) and f"{tids}[{mask}" in U(v).replace(" ", "")]
+    if tr_name is None and not bad_tr:
+        raise AnalysisError(f"{f.site()}: the agent id of the single-agent rows (a reduction of `{tids}[{mask}, :]`) was not found")
+    ctx.check("R3", f"{f.site()}::treatment-is-row-maximum", tr_name is not None, "the single agent of a row is its maximum id (the sentinel -1 is the minimum)",
+              f"the single agent of a single-agent row is `{U(env[bad_tr[0]]) if bad_tr else None}`, not the row maximum")
+    if tr_name is None:
+        return
+    O, S_, T_ = roles["obs"], roles["sid"], tr_name
     # effect = mean of matching observations
     st = [n for n in walk_own(f.node) if isinstance(n, ast.Assign) and isinstance(n.targets[0], ast.Subscript) and U(n.targets[0].value) == "result"]
     vals = {}
     par = enclosing_map(f.node)
-    lenv = {}
-    for n in walk_own(f.node):
-        if isinstance(n, ast.Assign) and isinstance(n.targets[0], ast.Name):
-            lenv.setdefault(n.targets[0].id, []).append(n.value)
-    lenv1 = {k: v[0] for k, v in lenv.items() if len(v) == 1}
     mean_ok = ctl_ok = False
     from engine.astutil import stmt_conditions
     loops = [n for n in walk_own(f.node) if isinstance(n, ast.For)]
+    ctx.need(len(loops) == 2, f"{f.site()}: the (sample, treatment) double loop was not found")
+    outer = max(loops, key=lambda lp: len(list(ast.walk(lp))))
+    inner_l = min(loops, key=lambda lp: len(list(ast.walk(lp))))
+    sv, tv = U(outer.target), U(inner_l.target)
+    if N.key(inline(outer.iter, env)) != N.key(parse_expr(f"np.unique({sids})")):
+        sv, tv = tv, sv            # treatments outside, samples inside
+    keep = {O, S_, T_, "result", sv, tv}
+    venv = {k: x for k, x in env.items() if k not in keep}
     for n in st:
-        key = U(inline(n.targets[0].slice, {k: x for k, x in lenv1.items() if isinstance(x, ast.Tuple)})).replace(" ", "")
-        v = inline(n.value, {k: x for k, x in lenv1.items() if k not in ("single_treatment_observations", "single_treatment_treatments", "single_treatment_sample_ids", "result")
-                             and not k.startswith("current_")})
-        # conditions the store is reached under, inside the innermost loop that contains it (early `continue`s included)
+        key = U(inline(n.targets[0].slice, {k: x for k, x in env.items() if isinstance(x, ast.Tuple)})).replace(" ", "")
+        v = inline(n.value, venv)
         inner = [lp for lp in loops if n in list(ast.walk(lp))]
         inner = min(inner, key=lambda lp: len(list(ast.walk(lp)))) if inner else None
         conds = stmt_conditions(inner.body).get(id(n), []) if inner is not None else []
@@ -140,34 +160,100 @@ def r3(ctx):
         other = []
         for t, pol in conds:
             b_ = N.b(t)
-            if b_ == N.b(parse_expr("current_treatment_id == CONTROL_SENTINEL_VALUE")):
+            if b_ == N.b(parse_expr(f"{tv} == CONTROL_SENTINEL_VALUE")):
                 is_ctl = pol
-            elif b_ == N.b(parse_expr("current_treatment_id != CONTROL_SENTINEL_VALUE")):
+            elif b_ == N.b(parse_expr(f"{tv} != CONTROL_SENTINEL_VALUE")):
                 is_ctl = not pol
             else:
                 other.append((t, pol))
         if is_ctl is True:
-            ctl_ok = U(n.value) in ("1.0", "1") and key == "(current_sample_id,current_treatment_id)" and not other
+            ctl_ok = U(n.value) in ("1.0", "1") and key == f"({sv},{tv})" and not other
         else:
-            m1 = "(single_treatment_treatments == current_treatment_id)"
-            m2 = "(single_treatment_sample_ids == current_sample_id)"
-            wants = [N.key(parse_expr(f"np.mean(single_treatment_observations[{x} & {y}])")) for x, y in ((m1, m2), (m2, m1))]
-            mean_ok = N.key(v) in wants and key == "(current_sample_id,current_treatment_id)" and is_ctl is False
+            m1 = f"({T_} == {tv})"
+            m2 = f"({S_} == {sv})"
+            wants = [N.key(parse_expr(f"np.mean({O}[{x} & {y}])")) for x, y in ((m1, m2), (m2, m1))]
+            mean_ok = N.key(v) in wants and key == f"({sv},{tv})" and is_ctl is False
             vals["effect"] = U(v)
-    obs_ok = N.key(env.get("single_treatment_observations", ast.Constant(0))) == N.key(parse_expr(f"{obs}[{mask}]")) and \
-        N.key(env.get("single_treatment_sample_ids", ast.Constant(0))) == N.key(parse_expr(f"{sids}[{mask}]"))
-    ctx.check("R3", f"{f.site()}::effect-is-mean", mean_ok and obs_ok and len(st) == 2,
+    ctx.check("R3", f"{f.site()}::effect-is-mean", mean_ok and len(st) == 2,
               "effect(sample, treatment) = mean of that sample's single-agent observations of that treatment",
               f"the single-agent effect is `{vals.get('effect', 'not found')[:120]}`: with repeated measurements it must be their mean "
               f"(a running average or last value coincides only for one or two replicates)")
     ctx.check("R3", f"{f.site()}::control-is-one", ctl_ok, "the control's effect is 1.0 for every sample", "the control treatment is not mapped to effect 1.0")
     g = ctx.fn("data.create_single_treatment_effect_array")
-    src = U(g.node).replace(" ", "")
     call = [c for c in calls(g.node) if U(c.func) == "create_single_treatment_effect_map"]
     kw = kwargs(call[0]) if call else {}
-    ok = len(call) == 1 and [U(kw.get(k)) for k in ("sample_ids", "treatment_ids", "observation")] == g.params \
-        and "result[idx,treatment_idx]=single_treatment_effect_map[current_sample_id,current_treatment_id]" in src.replace("(current_sample_id,current_treatment_id)", "current_sample_id,current_treatment_id") \
-        and f"enumerate(zip({g.params[0]},{g.params[1]}))" in src and "enumerate(current_treatment_ids)" in src
+    wired = len(call) == 1 and [U(kw.get(k)) for k in ("sample_ids", "treatment_ids", "observation")] == g.params
+    gs, gt = g.params[0], g.params[1]
+    genv = single_defs(g.node)
+    mapn = [k for k, v in genv.items() if call and v is call[0]]
+    stores = [n for n in walk_own(g.node) if isinstance(n, ast.Assign) and len(n.targets) == 1 and isinstance(n.targets[0], ast.Subscript) and U(n.targets[0].value) == "result"]
+    ok = False
+    if wired and len(stores) == 1 and mapn:
+        st0 = stores[0]
+        gpar = enclosing_map(g.node)
+        chain = []
+        n = st0
+        while n in gpar:
+            n = gpar[n]
+            if isinstance(n, ast.For):
+                chain.append(n)
+        chain.reverse()
+        sym = {}
+        axes = ["R", "C"]
+
+        def bind(tgt, val):
+            if isinstance(tgt, ast.Name):
+                sym[tgt.id] = val
+            elif isinstance(tgt, ast.Tuple) and isinstance(val, tuple) and len(val) == len(tgt.elts):
+                for t_, v_ in zip(tgt.elts, val):
+                    bind(t_, v_)
+
+        def sx(e):
+            """symbolic text of an expression over the loop bindings, with X[R][C] written X[R,C]"""
+            t = U(inline(e, {k: ast.parse(v, mode="eval").body for k, v in sym.items() if isinstance(v, str)})).replace(" ", "")
+            for ax in ("C",):
+                t = t.replace("[R][C]", "[R,C]")
+            return t
+        ax_i = 0
+        good_loops = True
+        for lp in chain:
+            it = lp.iter
+            if ax_i >= 2:
+                good_loops = False
+                break
+            A = axes[ax_i]
+            if isinstance(it, ast.Call) and U(it.func) == "enumerate" and len(it.args) == 1 and isinstance(lp.target, ast.Tuple) and len(lp.target.elts) == 2:
+                inner = it.args[0]
+                bind(lp.target.elts[0], A)
+                if isinstance(inner, ast.Call) and U(inner.func) == "zip":
+                    bind(lp.target.elts[1], tuple(f"{sx(a)}[{A}]" for a in inner.args))
+                else:
+                    bind(lp.target.elts[1], f"{sx(inner)}[{A}]")
+                ax_i += 1
+            elif isinstance(it, ast.Call) and U(it.func) == "np.ndenumerate" and len(it.args) == 1 and isinstance(lp.target, ast.Tuple) and len(lp.target.elts) == 2 \
+                    and isinstance(lp.target.elts[0], ast.Tuple) and len(lp.target.elts[0].elts) == 2:
+                bind(lp.target.elts[0], ("R", "C"))
+                bind(lp.target.elts[1], f"{sx(it.args[0])}[R,C]")
+                ax_i += 2
+            elif isinstance(it, ast.Call) and U(it.func) == "range" and isinstance(lp.target, ast.Name):
+                bind(lp.target, A)
+                ax_i += 1
+            elif isinstance(it, ast.Call) and U(it.func) == "zip" and isinstance(lp.target, ast.Tuple):
+                good_loops = False          # zip without an index cannot address result[R, ..]
+                break
+            else:
+                good_loops = False
+                break
+        if good_loops and ax_i == 2:
+            lenv_g = {}
+            for lp in chain:
+                for x in lp.body:
+                    if isinstance(x, ast.Assign) and len(x.targets) == 1 and isinstance(x.targets[0], ast.Name):
+                        lenv_g[x.targets[0].id] = x.value
+            tgt_t = sx(inline(st0.targets[0].slice, lenv_g))
+            val = inline(st0.value, lenv_g)
+            key_t = sx(val.slice) if isinstance(val, ast.Subscript) and U(val.value) == mapn[0] else None
+            ok = tgt_t in ("(R,C)", "R,C") and key_t in (f"({gs}[R],{gt}[R,C])", f"{gs}[R],{gt}[R,C]")
     ctx.check("R3", f"{g.site()}::array-from-map", ok, "array[row, slot] = map[(row's sample, row's treatment in that slot)]",
               "the effect array is not filled per (row, slot) from the map keyed by that row's sample and treatment")
 
@@ -192,9 +278,21 @@ def r4(ctx):
     row_loops = [n for n in walk_own(f.node) if isinstance(n, ast.For) and zip_of(n) is not None]
     ctx.need(len(row_loops) == 1, f"{f.site()}: row loop (a zip of the three input columns) not found")
     lp = row_loops[0]
-    zs = [U(inline(a, env)).replace(" ", "") for a in zip_of(lp).args]
-    m = "single_treatment_mask"
-    ok = zs in ([f"{s_}[~{m}]", f"{t_}[~{m},:]", f"{o_}[~{m}]"], [f"{s_}[~{m}]", f"{t_}[~{m}]", f"{o_}[~{m}]"])
+    full_env = single_defs(f.node)
+    zargs = [inline(a, full_env) for a in zip_of(lp).args]
+    zs = [U(a).replace(" ", "") for a in zargs]
+    ok = False
+    if all(isinstance(a, ast.Subscript) for a in zargs) and [U(a.value) for a in zargs] == [s_, t_, o_]:
+        sel = []
+        for a, two_d in zip(zargs, (False, True, False)):
+            sl = a.slice
+            if isinstance(sl, ast.Tuple) and len(sl.elts) == 2 and U(sl.elts[1]) == ":" and two_d:
+                sl = sl.elts[0]
+            sel.append(sl)
+        if len({U(x) for x in sel}) == 1:
+            e = sel[0]
+            e = e.operand if isinstance(e, ast.UnaryOp) and isinstance(e.op, ast.Invert) else ast.UnaryOp(op=ast.Invert(), operand=e)
+            ok = C04.control_count_class(e, t_) == ("count", "==", "arity-1")        # rows of the table = complement of the single-agent rows
     ctx.check("R4", f"{f.site()}::rows", ok, "iterates (sample, treatments, observation) of the rows that are not single-agent rows, aligned",
               f"the row loop zips {zs}")
     tgt = lp.target.elts[1] if call_name(lp.iter) == "enumerate" else lp.target
